@@ -3,8 +3,8 @@ CONSTANTS
   Prefs = {"rsa", "p256", "p384"}
   AgentModes = {"ok", "nolifetime", "refuse", "none"}
   SecondFactors = {"none", "totp", "vip"}
-  AsBuilt = {"AppendsInAgent"}
-  ServerCertifies = {"rsa", "p256", "p384", "ed25519"}
+  AsBuilt = {}
+  ServerCertifies = {"rsa", "p256", "p384"}
 INVARIANTS NoPrivateOnWire PrivateFilesRestricted OneCertPerLabel OfferedAreCertified
 PROPERTY OtherLabelsKept
 CHECK_DEADLOCK FALSE
